@@ -5062,6 +5062,14 @@ class PyCdlib:
         # Above we checked to make sure we got at least one old path, so we
         # don't need to worry about the else situation here.
 
+        if self.eltorito_boot_catalog is not None and not boot_catalog_old:
+            # The El Torito boot catalog has no Inode; its names are tracked
+            # by the boot catalog itself, which is what gives them their
+            # extent.  If the old path is one of those names, this is a link
+            # to the boot catalog, exactly as if boot_catalog_old was given.
+            if any(id(old_rec) == id(rec) for rec in self.eltorito_boot_catalog.dirrecords):
+                boot_catalog_old = True
+
         if old_rec.is_dir():
             # A hard link is another name for the contents of a file.  A
             # directory has no Inode to link to, and ISO9660, Joliet and UDF
